@@ -413,6 +413,50 @@ func TestC16(t *testing.T) {
 			}
 			rec.Eval("every-message-number", ng)
 			rec.NonTrivialEnum(ng)
+			// every field number: three records of a known message (record,
+			// lap, file_creator, event) carrying field f, for every f from 0
+			// to 255 (one-byte fields; listed ones with their own type)
+			nf := int64(0)
+			for _, g := range []uint16{20, 19, 49, 21} {
+				mi := prof.Table().Msgs[g]
+				for f := 0; f <= 255 && failed < 3; f++ {
+					fd := fitmodel.FieldDef{Num: byte(f), Size: 1, Base: 0x02}
+					raw := []byte{7}
+					if fi := mi.Fields[byte(f)]; fi != nil {
+						bt := fitmodel.MustBase(fi.Base)
+						if bt.String || fi.Array {
+							continue
+						}
+						fd = fitmodel.FieldDef{Num: byte(f), Size: byte(bt.Size), Base: fi.Base}
+						raw = make([]byte, bt.Size)
+						raw[0] = 7
+					}
+					st := &fitmodel.Stream{HeaderSize: 12, Proto: 0x20, Recs: []fitmodel.Rec{
+						{IsDef: true, Global: 0, Fields: []fitmodel.FieldDef{{Num: 0, Size: 1, Base: 0}}}, {Raw: []byte{4}},
+						{IsDef: true, Local: 1, Global: g, Fields: []fitmodel.FieldDef{fd}},
+						{Local: 1, Raw: raw}, {Local: 1, Raw: raw}, {Local: 1, Raw: raw},
+					}}
+					f2, err := fit.Decode(bytes.NewReader(st.Bytes()), fit.WithUnknownFields(), fit.WithUnknownMessages())
+					nf++
+					um, uf := tallies(st, len(st.Recs))
+					gotM, gotF := map[uint16]int{}, map[[2]uint16]int{}
+					if f2 != nil {
+						for _, m := range f2.UnknownMessages {
+							gotM[uint16(m.MesgNum)] += m.Count
+						}
+						for _, u := range f2.UnknownFields {
+							gotF[[2]uint16{uint16(u.MesgNum), uint16(u.FieldNum)}] += u.Count
+						}
+					}
+					if err != nil || fmt.Sprint(gotM) != fmt.Sprint(um) || fmt.Sprint(gotF) != fmt.Sprint(uf) {
+						failed++
+						c := optCase{FileType: 4, Stream: st, Chunk: gen.NoFault("whole", 0), Text: st.String()}
+						rec.Fail("every-field-number", "", fmt.Sprintf("three records of message %d with field %d: err=%v, unknown messages %v (want %v), unknown fields %v (want %v)", g, f, err, gotM, um, gotF, uf), c)
+					}
+				}
+			}
+			rec.Eval("every-field-number", nf)
+			rec.NonTrivialEnum(nf)
 		}
 
 		// long runs: one unlisted field number and one unknown message number
